@@ -19,8 +19,46 @@ template<class T> void drain(T& m) {
   m.execute_queued_events();
 #endif
 }
+// a nested submachine whose exit pseudo state is connected in the parent: the copy takes the exit point - the original must neither move
+// nor be handed the forwarded event ("taking exit points of nested submachines never changes the other", C15); and vice versa afterwards
+#include <boost/msm/front/states.hpp>
+struct leave { leave() {} template<class E> leave(E const&) {} }; struct tick {};
+static int g_nt = 0;
+struct XS_ : state_machine_def<XS_> {
+  struct In : state<> {}; struct Out : exit_pseudo_state<leave> {};
+  typedef In initial_state;
+  struct transition_table : mpl::vector< Row<In, leave, Out, none, none> > {};
+  template<class F,class Ev> void no_transition(Ev const&,F&,int){ ++g_nt; }
+};
+typedef BE<XS_> XS;
+struct XT_ : state_machine_def<XT_> {
+  struct Done : state<> {};
+  typedef XS initial_state;
+  struct transition_table : mpl::vector< Row<XS::exit_pt<XS_::Out>, leave, Done, Cnt, none>, Row<XS, tick, none, none, none>, Row<Done, tick, none, none, none> > {};
+  template<class F,class Ev> void no_transition(Ev const&,F&,int){ ++g_nt; }
+};
+typedef BE<XT_> XT;
+static void exit_point_scenario(const char* how, XT& a, XT& b) {
+  const int in_sub = cur(a); g_actions = 0; g_nt = 0;
+  b.process_event(leave());                              // the copy leaves through the exit point
+  const bool copy_left = cur(b) != in_sub && g_actions == 1;
+  const bool orig_untouched = cur(a) == in_sub;
+  a.process_event(tick());                               // an unrelated event on the original: handled by the row on the submachine state, nothing else happens
+  const bool orig_quiet = cur(a) == in_sub && g_actions == 1 && g_nt == 0;
+  a.process_event(leave());                              // and the original can still take its own exit point
+  const bool orig_leaves_itself = cur(a) != in_sub && g_actions == 2 && g_nt == 0;
+  report(std::string(how) + ".copy-takes-the-exit-point-of-a-nested-submachine", copy_left && orig_untouched && orig_quiet && orig_leaves_itself, "C15,C09",
+         "copy_left=" + std::to_string(copy_left) + " orig_untouched=" + std::to_string(orig_untouched) + " orig_quiet=" + std::to_string(orig_quiet) + " orig_leaves_itself=" + std::to_string(orig_leaves_itself) +
+         " actions=" + std::to_string(g_actions) + " no_transition=" + std::to_string(g_nt));
+}
 int main(int argc, char** argv) {
   if (argc > 1) g_only = argv[1];
+  { XT a; a.start(); const XT& ca = a; XT b(ca); exit_point_scenario("copy", a, b); }
+  { XT a; a.start(); const XT& ca = a; XT b; b.start(); b = ca; exit_point_scenario("assign", a, b); }
+#if IS_MP11
+  { XT a; a.start(); const XT& ca = a; XT t(ca); XT b(std::move(t)); exit_point_scenario("move", a, b); }
+  { XT a; a.start(); const XT& ca = a; XT t(ca); XT b; b.start(); b = std::move(t); exit_point_scenario("move-assign", a, b); }
+#endif
   for (int steps = 0; steps < 3; ++steps) for (int assign = 0; assign < 2; ++assign) {
     M a; a.start(); for (int i = 0; i < steps; ++i) a.process_event(go());
     const M& ca = a; M b(ca); M c; c.start(); if (assign) { c = ca; }
